@@ -511,11 +511,81 @@ def rejected_compute_changes_nothing(ctx, rule='rejected-call-leaves-the-object-
         raise AnalysisBroken('only %d rejecting compute() members found in LinAlg (7 confirmed by hand)' % n)
 
 
+def sorting_rule_validated_first(ctx, rule='sorting-rule-validated-before-the-iteration'):
+    """compute(selection, maxit, tol, sorting): the final sort is the only consumer of `sorting`, and it rejects an unsupported
+    rule -- AFTER the whole iteration has run: the flags are set, the Ritz values retrieved (back-transformed in the shift
+    solvers), the operator applied ncv (maxit + 1) times, while status and iteration count are those of before the call: a
+    rejected call that leaves a partially built result behind.  So (a) compute() has a test on `sorting` that throws
+    std::invalid_argument and that every path from entry passes before the first call that changes the object; and (b) the
+    set of rules that test accepts equals the set the final sort accepts (evaluated on all nine enumerators): one more would be
+    rejected late all the same, one fewer would reject a documented rule."""
+    from . import paths
+    from .xeval import ev, CannotEval
+    names = c18.enum_table(ctx)
+    n = 0
+    for base in ('Spectra::HermEigsBase', 'Spectra::GenEigsBase'):
+        for fn in ctx.F.insts(base + '::compute'):
+            if not fn.cfg:
+                continue
+            rp = [v for v in fn.params if fn.locals[v]['type'] == 'Spectra::SortRule']
+            if len(rp) != 2:
+                raise AnalysisBroken('%s: compute() has %d SortRule parameters' % (fn.record, len(rp)))
+            srt = fn.locals[rp[1]]['name']
+            guards = [(g, t) for g, t in guards_of_throws(fn) if 'invalid_argument' in t.get('thrown', '') and
+                      any(y['k'] == 'DeclRefExpr' and y.get('var') == rp[1] for y in fn.walk(g['cond']))]
+            inst = '%s::compute' % base.replace('Spectra::', '')
+            n += 1
+            if not guards:
+                ctx.fail(rule, inst, fn.qname, 'compute() never tests its `%s` argument: an unsupported rule is rejected only by the final sort, after the whole iteration '
+                         '(flags set, Ritz values retrieved, operator applied, status and iteration count unchanged)' % srt)
+                continue
+            g = guards[0][0]
+            cond_ids = set(y['id'] for y in fn.walk(g['cond']))
+            changing = lambda m_: m_['k'] == 'CXXMemberCallExpr' and m_.get('callee') in ('factorize_from', 'retrieve_ritzpair', 'restart', 'num_converged', 'sort_ritzpair', 'init')
+            hit = paths.search(fn, [], stop=lambda m_: m_['id'] in cond_ids, target=changing, include_entry=True)
+            # accepted sets
+            def accepted_by(fnx, cond, var):
+                acc = set()
+                for val, name in names.items():
+                    try:
+                        r = ev(fnx, cond, {('local', fnx.locals[var]['name']): ('enum', name)})
+                    except CannotEval as e:
+                        raise AnalysisBroken('%s: cannot evaluate the rule test: %s' % (fnx.qname, e))
+                    if not r:
+                        acc.add(name)
+                return acc
+            mine = accepted_by(fn, g['cond'], rp[1])
+            # the final sort of this base
+            sorts = [f for f in ctx.F.by_record[fn.record].get('sort_ritzpair', [])]
+            theirs = None
+            if sorts:
+                sf = sorts[0]
+                sw = [x for x in sf.walk() if x['k'] == 'SwitchStmt']
+                if sw:
+                    theirs = set(names[c.get('ival')] for c in sf.walk(sw[0]['body']) if c['k'] == 'CaseStmt' and c.get('ival') in names)
+                else:
+                    sg = [(gg, t) for gg, t in guards_of_throws(sf) if 'invalid_argument' in t.get('thrown', '')]
+                    if sg:
+                        theirs = accepted_by(sf, sg[0][0]['cond'], sf.params[0])
+            if theirs is None:
+                raise AnalysisBroken('%s: rule support of the final sort not identified' % fn.record)
+            probs = []
+            if hit is not None:
+                probs.append('`%s` changes the object on a path that has not yet tested `%s`' % (str(hit[-1])[:90], srt))
+            if mine != theirs:
+                probs.append('compute() accepts %s, the final sort %s' % (sorted(mine), sorted(theirs)))
+            ctx.check(not probs, rule, inst, fn.qname,
+                      '`%s` is tested (accepts %s, like the final sort) before the first call that changes the object' % (srt, sorted(mine)) if not probs else '; '.join(probs))
+    if n < 2:
+        raise AnalysisBroken('only %d compute() members of the solver bases analysed' % n)
+
+
 def run(ctx):
     range_guards(ctx)
     validation_precedes_allocation(ctx)
     rejected_init_leaves_uninitialised(ctx)
     rejected_compute_changes_nothing(ctx)
+    sorting_rule_validated_first(ctx)
     thrown_types(ctx)
     c18.dispatch(ctx)
     sigma_guards(ctx)
